@@ -35,6 +35,7 @@ var verifTrace struct {
 type verifEval struct {
 	id    int
 	depth int
+	skip  bool // this evaluation is beyond the per-expression limit: not recorded
 	ptrs  map[any]int
 	buf   []byte
 }
@@ -49,6 +50,9 @@ func init() {
 		panic(err)
 	}
 	verifTrace.file = f
+	if n, err := strconv.Atoi(os.Getenv("VERIF_NODETRACE_PER_EXPR")); err == nil && n > 0 {
+		verifPerExpr = int32(n)
+	}
 	verifTrace.evals = map[uintptr]*verifEval{}
 }
 
@@ -70,7 +74,11 @@ func verifVisitor(v *parser.FHIRPathVisitor) {
 
 type verifNode struct {
 	inner expr.Expression
+	evals int32 // evaluations started with this node as the outermost one
 }
+
+// verifPerExpr is the number of evaluations recorded per compiled expression (VERIF_NODETRACE_PER_EXPR).
+var verifPerExpr int32 = 3
 
 func verifDescribe(e expr.Expression) (kind, param string) {
 	switch n := e.(type) {
@@ -189,9 +197,27 @@ func (n *verifNode) Evaluate(ctx *expr.Context, input system.Collection) (system
 	if ev == nil {
 		verifTrace.seq++
 		ev = &verifEval{id: verifTrace.seq, ptrs: map[any]int{}}
+		n.evals++
+		ev.skip = n.evals > verifPerExpr
 		verifTrace.evals[key] = ev
 	}
 	verifTrace.Unlock()
+	if ev.skip {
+		ev.depth++
+		defer func() {
+			ev.depth--
+			r := recover()
+			if ev.depth == 0 || r != nil {
+				verifTrace.Lock()
+				delete(verifTrace.evals, key)
+				verifTrace.Unlock()
+			}
+			if r != nil {
+				panic(r)
+			}
+		}()
+		return n.inner.Evaluate(ctx, input)
+	}
 	// one evaluation runs in one goroutine: its record needs no lock
 	ev.depth++
 	depth := ev.depth
